@@ -427,7 +427,7 @@ def _specs():
   def cc_factors(b):
     return dict(num_buckets=[1, 2, 3, 4, None], output_min=OUTB, output_max=OUTB, monotonicities=PAIRS)
   # fix 76984f9: num_buckets < 1 is a ValueError (0, -1; a float 0.5; None is "unknown")
-  NB = [0, -1, 1, 3, 4, 0.5]
+  NB = [0, -1, 1, 3, 4, 0.5, 2.5, 3.0]
   S.append(Spec("CategoricalCalibrationConstraints", "categoricalConstraints",
                 [("output_min", "v"), ("output_max", "v"), ("monotonicities", "v")],
                 [dict(output_min=0.0, output_max=1.0, monotonicities=[(0, 1)])],
